@@ -280,3 +280,25 @@ Theorem C12_unknown_event_from_source : forall sx en marks who th me jumbo aux s
 Proof. exact DispatchProofs.bad_refused. Qed.
 Print Assumptions C12_unknown_event_from_source.
 (* ==== end of block (unit dispatch) ==== *)
+
+(* ==== whole-emulator composition (EmuAllDefs) ==== *)
+(* EmuAllDefs.ovniemu_model is the COMPOSITION of the models of this tree on a whole trace directory (every stream: relative
+   path, bytes of stream.obs, stream.json in the abstract forms the models read; clock-offsets.txt; -l, -a): loader gates,
+   stream load + step (this property's model), metadata merge, model probe, mark merge, clock offsets + player, decoding,
+   emulator core + Paraver writer.  Its output is Refused why | Files six_byte_strings; it is compared with the real ovniemu
+   on whole generated directories by ./check C13.
+   C12 on the whole trace: a stream that is not structurally valid to its end (any of the cases of the C12 theorems above), a stream.json the
+   loader's gates refuse, or metadata the merge refuses, ANYWHERE in the trace, makes the whole emulation `Refused`: never
+   `Files`.  (Unknown events and wrong payload sizes are refused by the core through DecodeDefs: EvBad -> Err, the C12 decode theorems;
+   in the composition they surface as Refused (REmu code) - covered by files_means_all_valid: `Files` implies `emulate = Ok`.) *)
+From OV Require Emu.EmuAllDefs Proofs.EmuAllProofs.
+Theorem C12_all_invalid_refused : forall inp,
+  ((exists s, In s (EmuAllDefs.sorted_streams inp) /\
+      forall recs, StreamDefs.run (EmuAllDefs.si_obs s) EmuAllDefs.junk0 false <> StreamDefs.Run StreamDefs.VEnd recs) \/
+   (exists s, In s (EmuAllDefs.sorted_streams inp) /\
+      LoaderMetaDefs.meta_rejected (LoaderMetaDefs.meta_check (EmuAllDefs.si_meta s) (EmuAllDefs.proc_has_app (EmuAllDefs.sorted_streams inp) s)) = true) \/
+   (forall sys, MetaDefs.build (map EmuAllDefs.si_smeta (EmuAllDefs.sorted_streams inp)) <> MetaDefs.Ok sys)) ->
+  exists why, EmuAllDefs.ovniemu_model inp = EmuAllDefs.Refused why.
+Proof. exact EmuAllProofs.invalid_anywhere_refused. Qed.
+Print Assumptions C12_all_invalid_refused.
+(* ==== end of block (EmuAllDefs) ==== *)
